@@ -60,6 +60,8 @@ func (p *unw) obj() (pdf.Object, error) {
 		return nil, nil
 	case 'Z':
 		return pdf.Array(nil), nil
+	case 'N':
+		return pdf.Dict(nil), nil
 	case 't':
 		return pdf.Boolean(true), nil
 	case 'f':
